@@ -198,6 +198,10 @@ func (ch *channel) SendAndClose(ctx async.Context, data []byte) status.Status {
 // Receive receives and returns a message, or an end status.
 func (ch *channel) Receive(ctx async.Context) ([]byte, status.Status) {
 	for {
+		// Get the wait channel before polling, otherwise a message received
+		// in between can be missed.
+		wait := ch.ReceiveWait()
+
 		// Poll channel
 		data, ok, st := ch.ReceiveAsync(ctx)
 		switch {
@@ -211,7 +215,7 @@ func (ch *channel) Receive(ctx async.Context) ([]byte, status.Status) {
 		select {
 		case <-ctx.Wait():
 			return nil, ctx.Status()
-		case <-ch.ReceiveWait():
+		case <-wait:
 		}
 	}
 }
